@@ -809,6 +809,11 @@ class BaseBackend(CodeGen):
         from scipy.integrate import solve_ivp
         kwargs['t_eval'] = times
 
+        # in-place vector fields return their shared `dy` buffer; integrators that keep the returned array and call the
+        # function again before using it (e.g. the dense output of DOP853) need a copy
+        def rhs(t, y_):
+            return np.array(func(t, y_, *args))
+
         # call scipy solver
-        results = solve_ivp(fun=func, t_span=(t0, T), y0=y, first_step=dt, args=args, **kwargs)
+        results = solve_ivp(fun=rhs, t_span=(t0, T), y0=y, first_step=dt, **kwargs)
         return results['y'].T
